@@ -201,4 +201,12 @@ and one in which B starts before an A has finished is not. -/
 example : accepts ["A", "A", "B"] [.spawn, .spawn, .finish 1, .finish 0, .spawn, .finish 2] = true := by decide
 example : accepts ["A", "A", "B"] [.spawn, .spawn, .finish 1, .spawn] = false := by decide
 
+/-- The loop the barrier model was written from, as read from kube/client.go on this run: the
+batches are keyed by the object's Kind, the wait sits under the key change, and a task is added
+to the wait group before its goroutine starts. -/
+theorem batch_loop_facts :
+    Helm.Gen.batchKey = "info.Object.GetObjectKind().GroupVersionKind().Kind" ∧
+    Helm.Gen.batchWaitsOnKeyChange = true ∧ Helm.Gen.batchAddsBeforeGo = true := by
+  decide
+
 end Helm.Props.C08
